@@ -445,7 +445,7 @@ def run(pid, tier, seed, replay):
                         "sync_close_variants": len(variants),
                         "simulated_scripts": len(sim), "curated": len(CURATED)}
     cov["exhaustive"] = True   # every state of the bounded generator model is reached by some replayed script
-    vlib.log("[C15] J1 done, %d scripts to replay" % len(scripts))
+    vlib.log("[C15] %.0fs J1+J2 done, %d scripts to replay" % (time.time() - t0, len(scripts)))
 
     corpus = Corpus()
     lines, idx = exec_scripts(vh, scripts, "s", TIMEOUT_MS, stats)
@@ -453,7 +453,7 @@ def run(pid, tier, seed, replay):
     for s, size, n in conc_plan:
         corpus.add_conc(exec_conc(vh, s, 1, n, size, TIMEOUT_MS), s, size)
     cov["seeds"] = sorted({s for s, _, _ in conc_plan})
-    vlib.log("[C15] recorded %d runs, %d lines" % (len(corpus.meta), len(corpus.lines)))
+    vlib.log("[C15] %.0fs recorded %d runs, %d lines" % (time.time() - t0, len(corpus.meta), len(corpus.lines)))
 
     # J3: verdict (property definitions on the observations), then conformance
     findings, states = judge(corpus.lines, invariants=INVARIANTS)
@@ -475,7 +475,9 @@ def run(pid, tier, seed, replay):
     if hung and not violations:
         raise vlib.Inconclusive("a Close() call does not return although no publisher or other subscriber was "
                                 "found blocked: " + hung[0])
+    vlib.log("[C15] %.0fs verdict pass done" % (time.time() - t0))
     drift, _ = judge(corpus.lines, conform=True)
+    vlib.log("[C15] %.0fs conformance pass done" % (time.time() - t0))
     for f in drift:
         vlib.log("DRIFT C15 %s %s" % (describe(f), json.dumps(corpus.meta_of(f))[:300]))
 
